@@ -277,6 +277,72 @@ fn run(unit: &Value, tier: Tier, out: &mut UnitResult) {
                 }
             }
         }
+        "sizes" => {
+            // buffer boundaries of the writers and readers: header frames and bodies whose encoded
+            // size sits within a few bytes of every power of two from 2^7 to 2^20 (2^17 in quick),
+            // reached through the route, through one header value, and through the body
+            let part = unit["part"].as_u64().unwrap() as usize;
+            let parts = unit["parts"].as_u64().unwrap() as usize;
+            let top = tier.pick(17, 20);
+            let mut sizes: Vec<usize> = vec![];
+            for e in 7..=top {
+                let p = 1usize << e;
+                for d in -20i64..=4 {
+                    sizes.push((p as i64 + d) as usize);
+                }
+            }
+            let mut n = 0usize;
+            for (si, size) in sizes.iter().enumerate() {
+                if si % parts != part {
+                    continue;
+                }
+                for shape in 0..4usize {
+                    n += 1;
+                    let filler = |len: usize, c: char| -> String { std::iter::repeat(c).take(len).collect() };
+                    // (route, headers, body)
+                    let (route, h, b): (String, Vec<(String, String)>, Vec<u8>) = match shape {
+                        0 => (format!("/{}", filler(size - 1, 'r')), vec![], b"x".to_vec()),
+                        1 => ("/r".into(), vec![("k".into(), filler(*size, 'v'))], vec![]),
+                        2 => ("/r".into(), vec![], crate::world::pattern_body(*size as u64, *size).to_vec()),
+                        _ => (format!("/{}", filler(size / 2, 'r')), vec![(filler(size / 2, 'k'), "v".into())], crate::world::pattern_body(n as u64, 9000).to_vec()),
+                    };
+                    out.evaluations += 2;
+                    let want: BTreeMap<String, String> = h.iter().cloned().collect();
+                    let r = catch(|| {
+                        let enc = encode_request(&rt, &route, &h, &b, true)?;
+                        let reference = ref_encode_request(&route, &h, &b);
+                        if enc != reference {
+                            return Err(format!("encoded request differs from the documented layout (route {} B, header value {} B, body {} B): first difference at offset {:?} of {}", route.len(), h.first().map(|x| x.1.len()).unwrap_or(0), b.len(), enc.iter().zip(&reference).position(|(a, b)| a != b), reference.len()));
+                        }
+                        let dec = decode_request(&rt, &enc, vec![])?;
+                        if dec.0 != route || dec.1 != want || dec.2 != b {
+                            return Err(format!("round trip altered the request (route {} B, body {} B)", route.len(), b.len()));
+                        }
+                        // and in chunks that split the stream at the boundary itself
+                        let dec = decode_request(&rt, &enc, vec![*size.min(&(enc.len() - 1))])?;
+                        if dec.0 != route || dec.1 != want || dec.2 != b {
+                            return Err(format!("chunked round trip altered the request (route {} B, body {} B)", route.len(), b.len()));
+                        }
+                        let st = StatusCode::new(STATUS_CODES[n % STATUS_CODES.len()]).map_err(|_| "status rejected".to_string())?;
+                        let enc = encode_response(&rt, st, &h, &b, true)?;
+                        if enc != ref_encode_response(st.to_u16(), &h, &b) {
+                            return Err(format!("encoded response differs from the documented layout (header value {} B, body {} B)", h.first().map(|x| x.1.len()).unwrap_or(0), b.len()));
+                        }
+                        let dec = decode_response(&rt, &enc, vec![])?;
+                        if dec.0 != st.to_u16() || dec.1 != want || dec.2 != b {
+                            return Err(format!("round trip altered the response (header value {} B, body {} B)", h.first().map(|x| x.1.len()).unwrap_or(0), b.len()));
+                        }
+                        Ok(())
+                    });
+                    out.class(format!("sizes shape{shape}"));
+                    match r {
+                        Ok(Ok(())) => {}
+                        Ok(Err(e)) => out.violation("size-boundary", e, rp("sizes", json!({"size": size, "shape": shape}))),
+                        Err(p) => out.violation("codec-panics", format!("codec panicked at size {size} shape {shape}: {p}"), rp("sizes", json!({"size": size, "shape": shape}))),
+                    }
+                }
+            }
+        }
         "versions" => {
             // all 65536 version values x reserved byte classes; exactly (1, 0) is accepted
             for v in 0..=u16::MAX {
@@ -467,7 +533,7 @@ impl Check for C07 {
         CheckMeta {
             property: "C07",
             level: "exploration",
-            rule: "bounded-exhaustive inputs to the real codecs: every route over {'/', 'a', 'é', NUL, ' '} up to length 2 (quick) / 3 (thorough) plus a 1 KiB route x 26 header maps (0-3 entries incl. empty key/value, u64::MAX timeout, 300-byte value) x bodies {0,1,255,256,65536}; all 8 status codes x maps x bodies; all 65536 versions x 4 reserved bytes; all 65536 status codes; every strict prefix, single-byte substitution (5 values quick / all 255 thorough) over preamble, length prefixes and header, hostile length prefixes, every 1-cut and 2-cut chunking with Pending in between; distinct = distinct (message shape / mutation class)".into(),
+            rule: "bounded-exhaustive inputs to the real codecs: every route over {'/', 'a', 'é', NUL, ' '} up to length 2 (quick) / 3 (thorough) plus a 1 KiB route x 26 header maps (0-3 entries incl. empty key/value, u64::MAX timeout, 300-byte value) x bodies {0,1,255,256,65536}; all 8 status codes x maps x bodies; header frames (through the route, through one header value) and bodies of every size within -20..+4 bytes of every power of two 2^7..2^17 (quick) / 2^20 (thorough), compared byte for byte with the documented layout and round-tripped whole and cut at the boundary; all 65536 versions x 4 reserved bytes; all 65536 status codes; every strict prefix, single-byte substitution (5 values quick / all 255 thorough) over preamble, length prefixes and header, hostile length prefixes, every 1-cut and 2-cut chunking with Pending in between; distinct = distinct (message shape / mutation class)".into(),
             assumptions: vec!["header maps with more than one entry are compared after parsing (map order is unspecified); single-entry and empty maps are compared byte for byte with the reference encoder".into()],
             exhaustive: true,
         }
@@ -480,6 +546,9 @@ impl Check for C07 {
         }
         for s in 0..5 {
             u.push(json!({"kind":"mutate","sample":s,"on_death":"decoder-aborts-process"}));
+        }
+        for part in 0..8 {
+            u.push(json!({"kind":"sizes","part":part,"parts":8,"on_death":"decoder-aborts-process"}));
         }
         u
     }
